@@ -27,7 +27,7 @@ class Job:
     def __init__(self, name, engine, harness, entry, srcs=(), cdefs=None, unwind=None, unwindset=None, mode='func',
                  timeout=None, stubs=(), models=('models/base.def',), preludes=('prelude_base.h',), extra_cbmc=(),
                  unwind_is_property=False, object_bits=None, desc=None, ir2c_flags=(), pdefs=None, extra_clang=(),
-                 native_srcs=None, family=None, maxalloc=None, native_defs=None, solver=None, slice_formula=False, force_include=(), gen_c=None, fs_array=256):
+                 native_srcs=None, family=None, maxalloc=None, native_defs=None, solver=None, slice_formula=False, force_include=(), gen_c=None, fs_array=256, loop_rules=None, mem_gb=None):
         self.name = name; self.engine = engine; self.harness = harness; self.entry = entry
         self.srcs = list(srcs); self.cdefs = dict(cdefs or {}); self.pdefs = dict(pdefs or {})
         self.unwind = unwind; self.unwindset = dict(unwindset or {}); self.mode = mode; self.timeout = timeout
@@ -37,6 +37,8 @@ class Job:
         self.extra_clang = list(extra_clang); self.native_srcs = native_srcs; self.family = family or entry
         self.maxalloc = maxalloc; self.native_defs = dict(native_defs or {}); self.solver = solver
         self.slice_formula = slice_formula; self.force_include = list(force_include); self.gen_c = gen_c; self.fs_array = fs_array
+        self.mem_gb = mem_gb          # address-space cap of the solver process; also its weight in the runner's memory budget
+        self.loop_rules = dict(loop_rules or {})   # function name (or file basename followed by ':') -> bound for every loop in it
         self.result = None
 
     def build_key(self):
@@ -80,6 +82,23 @@ def defs_to_flags(d):
 
 class BuildError(Exception):
     pass
+
+
+class WeightedSemaphore:
+    def __init__(self, cap): self.cap = cap; self.used = 0; self.cv = threading.Condition()
+    def acquire(self, w):
+        with self.cv:
+            while self.used + w > self.cap and self.used > 0: self.cv.wait()
+            self.used += w
+    def release(self, w):
+        with self.cv: self.used -= w; self.cv.notify_all()
+
+
+try:
+    MEM_BUDGET_GB = max(8, int(open('/proc/meminfo').read().split('MemTotal:')[1].split()[0]) // (1 << 20) - 10)
+except Exception:
+    MEM_BUDGET_GB = 48
+MEMSEM = WeightedSemaphore(MEM_BUDGET_GB)
 
 
 class Runner:
@@ -191,6 +210,26 @@ class Runner:
         cmd += list(extra)
         return cmd
 
+    def resolve_loop_rules(self, job, b):
+        """turn per-function loop bounds into --unwindset entries for the loops that exist in this program"""
+        if not job.loop_rules: return
+        key = 'loops_' + job.build_key() + job.entry
+        with self.build_lock: loops = self.builds.get(key)
+        if loops is None:
+            cmd = ['cbmc'] + b['cbmc_inputs'] + self.gen_c_file(job, b) + b['cflags'] + defs_to_flags(job.pdefs) + ['--function', job.entry, '--drop-unused-functions', '--show-loops', '--json-ui']
+            rc, out, err, to, _ = sh(cmd, cwd=b['dir'], timeout=600)
+            loops = []
+            try:
+                for m in json.loads(out):
+                    if isinstance(m, dict) and 'loops' in m:
+                        for l in m['loops']: loops.append((l['name'], (l.get('sourceLocation') or {}).get('function', ''), os.path.basename((l.get('sourceLocation') or {}).get('file', ''))))
+            except Exception: pass
+            with self.build_lock: self.builds[key] = loops
+        for name, fn, fil in loops:
+            if name in job.unwindset: continue
+            if fn in job.loop_rules: job.unwindset[name] = job.loop_rules[fn]
+            elif fil + ':' in job.loop_rules: job.unwindset[name] = job.loop_rules[fil + ':']
+
     def gen_c_file(self, job, b):
         if not job.gen_c: return []
         h = hashlib.sha1(job.gen_c.encode()).hexdigest()[:16]
@@ -204,8 +243,12 @@ class Runner:
         key = 'props_' + job.build_key() + job.entry + json.dumps(sorted(job.pdefs.items())) + str(job.maxalloc) + hashlib.sha1((job.gen_c or '').encode()).hexdigest()
         with self.build_lock:
             if key in self.builds: return self.builds[key]
-        cmd = [c for c in self.cbmc_cmd(job, b) if c not in ('--unwinding-assertions',)] + ['--show-properties']
-        rc, out, err, to, _ = sh(cmd, cwd=b['dir'], timeout=600)
+        for _attempt in range(40):
+            cmd = [c for c in self.cbmc_cmd(job, b) if c not in ('--unwinding-assertions',)] + ['--show-properties']
+            rc, out, err, to, _ = sh(cmd, cwd=b['dir'], timeout=600)
+            g = re.search(r'invalid loop identifier ([^\s"\\]+)', out)
+            if g and g.group(1) in job.unwindset: del job.unwindset[g.group(1)]; continue
+            break
         try: data = json.loads(out)
         except Exception: raise BuildError('show-properties failed: ' + (out[-400:] + err[-400:]))
         sel = []; dropped = 0
@@ -269,7 +312,16 @@ class Runner:
             with self.loglock:
                 self.functions_encoded.update(b['report'].get('defined', []))
         timeout = job.timeout or (150 if self.tier == 'quick' else 900)
-        mem = 14 if self.tier == 'quick' else 24
+        mem = job.mem_gb or (8 if self.tier == 'quick' else 16)
+        self.resolve_loop_rules(job, b)
+        weight = min(MEM_BUDGET_GB, job.mem_gb or 3)      # jobs without a declared need measured < 1 GB; declared ones reserve their cap
+        MEMSEM.acquire(weight)
+        try:
+            return self.run_job_locked(job, b, res, timeout, mem)
+        finally:
+            MEMSEM.release(weight)
+
+    def run_job_locked(self, job, b, res, timeout, mem):
         extra = []
         if job.mode == 'mem':
             # CBMC treats a failed standard check as fatal and reports later properties on such paths as UNKNOWN.  MicroMessage.c (and others)
@@ -281,8 +333,14 @@ class Runner:
                 res['status'] = 'tool_error'; res['error'] = str(e); job.result = res; return res
             res['ub_checks_dropped'] = dropped
             for n in sel: extra += ['--property', n]
-        cmd = ['/usr/bin/time', '-f', 'MAXRSS_KB=%M'] + self.cbmc_cmd(job, b, extra=extra)
-        rc, out, err, to, wall = sh(cmd, cwd=b['dir'], timeout=timeout, mem_gb=mem)
+        for _attempt in range(40):
+            cmd = ['/usr/bin/time', '-f', 'MAXRSS_KB=%M'] + self.cbmc_cmd(job, b, extra=extra)
+            rc, out, err, to, wall = sh(cmd, cwd=b['dir'], timeout=timeout, mem_gb=mem)
+            # the job tables name recursion/loop bounds for every function a harness family may reach; CBMC rejects names that are not in this
+            # particular program (dropped as unreachable): remove such a name and run again
+            g = re.search(r'invalid loop identifier ([^\s"\\]+)', out) if not to else None
+            if g and g.group(1) in job.unwindset: del job.unwindset[g.group(1)]; continue
+            break
         g = re.search(r'MAXRSS_KB=(\d+)', err)
         if g: res['rss_mb'] = int(g.group(1)) // 1024
         res['wall_s'] = round(wall, 2)
@@ -474,6 +532,8 @@ def load_known():
 
 def run_property(prop, tier, seed, jobs, meta, diff_jobs=(), diff_n=None):
     """meta: dict(rule=..., bounds=..., outside=..., assumptions=[...], level='model_checking')"""
+    if os.environ.get('VERIF_FILTER'):     # development aid (used when trying seeded changes): run only the jobs whose name matches; never set by the registered commands
+        rx = re.compile(os.environ['VERIF_FILTER']); jobs = [j for j in jobs if rx.search(j.name)]; diff_jobs = [j for j in diff_jobs if rx.search(j.name)]
     R = Runner(prop, tier, seed)
     known = [k for k in load_known() if k['property'] == prop]
     t0 = time.time()
